@@ -16,7 +16,7 @@ for name in sorted(os.listdir(os.path.join(V, "seeded"))):
             det.append("`./check %s` (%s)" % (p, (o.get("detail") or [""])[0].strip()[:110].replace("|", "/")))
     clean = lambda t: " ".join(str(t).split()).replace("|", "/")
     rows.append("| %s | %s | %s | %s | %s |" % (name, m["property"], clean(m.get("summary", ""))[:230], clean(m.get("needs", ""))[:230],
-                                               "; ".join(det) if det else "**missed**" if r else "not run"))
+                                               "; ".join(det) if det else ("not flagged - " + clean(m["framework_verdict"])[:260]) if m.get("framework_verdict") else "**missed**" if r else "not run"))
 s = open(os.path.join(V, "DESIGN.md")).read()
 s = re.sub(r"<!-- seeded-begin -->.*?<!-- seeded-end -->", lambda _m: "<!-- seeded-begin -->\n" + "\n".join(rows) + "\n<!-- seeded-end -->", s, flags=re.S)
 open(os.path.join(V, "DESIGN.md"), "w").write(s)
